@@ -61,6 +61,8 @@ type Exec struct {
 	inlineDepthMax int
 	callsSeen map[string]bool // callee display names used through contracts
 	pristine *State
+	entryLets map[string]Val
+	inEntry   bool
 	assignRhs map[*ssa.Function]map[token.Pos]string
 	inHook   bool
 	allocs   []*Object
@@ -553,6 +555,9 @@ func (x *Exec) havoc(s *State, rec writeRec, tag string) {
 	if ocs, ok := cur.(*ChanStore); ok {
 		if ncs, ok := nv.(*ChanStore); ok {
 			ncs.Invs = ocs.Invs // an adopted invariant stays: every send is checked against it
+			if ncs.Len == nil {
+				ncs.Len = Int(0)
+			}
 			ncs.Cap = ocs.Cap   // the capacity of a channel never changes
 		}
 	}
@@ -676,9 +681,11 @@ func (x *Exec) Run() {
 	// global invariants of every package with a spec are assumed
 	x.assumeGlobalInvariants(s)
 	if x.c != nil {
+		x.inEntry = true
 		for _, l := range x.c.Lets {
 			x.evalLet(env, l)
 		}
+		x.inEntry = false
 		for _, r := range x.c.Requires {
 			t := env.evalBool(r.Expr)
 			s.assume(t)
@@ -692,6 +699,22 @@ func (x *Exec) Run() {
 		}
 	}
 	x.entryChanInvs(s)
+	if x.c != nil {
+		for _, gi := range x.c.GhostInits {
+			be, ok := gi.Expr.(*ast.BinaryExpr)
+			id, ok2 := (ast.Expr)(nil), false
+			if ok {
+				id, ok2 = be.X, true
+			}
+			if !ok || !ok2 || be.Op != token.EQL {
+				x.errorf("%s:%d: ghost-init needs `g_name == expr`", gi.File, gi.Line)
+				continue
+			}
+			if idn, isID := id.(*ast.Ident); isID && strings.HasPrefix(idn.Name, "g_") {
+				s.ghost[idn.Name] = env.eval(be.Y)
+			}
+		}
+	}
 	if x.c != nil {
 		senv := x.specEnv(s, nil)
 		for _, src := range x.c.Semaphores {
@@ -764,6 +787,34 @@ func (x *Exec) assumeGlobalInvariants(s *State) {
 			s.assume(t)
 			x.E.assumeNote("global-invariant " + shortPkg(p) + ": " + gi.Src)
 		}
+	}
+}
+
+// applyEffects performs the ghost assignments `effect g_x == expr` of a
+// contract: specification-only variables change exactly as the contract says.
+func (x *Exec) applyEffects(s *State, env *SpecEnv, c *Contract) {
+	type upd struct {
+		name string
+		v    Val
+	}
+	var ups []upd
+	for _, ef := range c.Effects {
+		be, ok := ef.Expr.(*ast.BinaryExpr)
+		if !ok || be.Op != token.EQL {
+			x.errorf("%s:%d: effect needs the form `g_name == expr`", ef.File, ef.Line)
+			continue
+		}
+		id, ok := be.X.(*ast.Ident)
+		if !ok || !strings.HasPrefix(id.Name, "g_") {
+			x.errorf("%s:%d: effect target must be a ghost variable g_*", ef.File, ef.Line)
+			continue
+		}
+		ups = append(ups, upd{id.Name, env.eval(be.Y)})
+	}
+	env.syncFacts()
+	for _, u := range ups {
+		s.ghost[u.name] = u.v
+		s.writes["ghost:var:"+u.name] = writeRec{obj: x.fsMarker()}
 	}
 }
 
@@ -909,6 +960,7 @@ func (x *Exec) atReturn(s *State, ret Val) {
 	}
 	env := x.specEnv(s, nil)
 	env.bindResults(x.fn, ret)
+	x.applyEffects(s, env, x.c)
 	for i, e := range x.c.Ensures {
 		lbl := e.Label
 		if lbl == "" {
@@ -926,7 +978,25 @@ func (x *Exec) atReturn(s *State, ret Val) {
 				fsAllowed = true
 				continue
 			}
+			if strings.HasPrefix(strings.TrimSpace(a), "g_") {
+				continue
+			}
 			plainAssigns = append(plainAssigns, a)
+		}
+		for _, k := range sortedWriteKeys(s.writes) {
+			if !strings.HasPrefix(k, "ghost:var:") || k == "ghost:var:cancelled" {
+				continue
+			}
+			name := strings.TrimPrefix(k, "ghost:var:")
+			listed := false
+			for _, a := range x.c.Assigns {
+				if strings.TrimSpace(a) == name {
+					listed = true
+				}
+			}
+			if !listed {
+				x.oblige(s, "frame", "ghost:"+name, TFalse, nil, "ghost variable changed but not listed in assigns")
+			}
 		}
 		if _, wrote := s.writes["ghost:fs"]; wrote && !fsAllowed {
 			x.oblige(s, "frame", "ghost:fs", TFalse, nil, "file-system effect by a function whose assigns clause does not list fs")
@@ -934,7 +1004,7 @@ func (x *Exec) atReturn(s *State, ret Val) {
 		allowed := x.assignRecs(s, plainAssigns, x.specEnvEntry(s))
 		for _, k := range sortedWriteKeys(s.writes) {
 			rec := s.writes[k]
-			if !rec.obj.pre || rec.obj.kind == "chan" || rec.obj.name == "ghost:fs" {
+			if !rec.obj.pre || rec.obj.kind == "chan" || rec.obj.name == "ghost:fs" || strings.HasPrefix(k, "ghost:") {
 				continue
 			}
 			if coveredBy(rec, allowed) {
@@ -1272,6 +1342,16 @@ func (x *Exec) havocLoopState(s *State, li *loopInfo, b *ssa.BasicBlock, writes 
 			x.fsHavoc(s, tag)
 			continue
 		}
+		if strings.HasPrefix(k, "ghost:var:") {
+			name := strings.TrimPrefix(k, "ghost:var:")
+			if name == "cancelled" {
+				s.ghost[name] = Var("cancelled@"+tag, SBool)
+			} else {
+				s.ghost[name] = Var(name+"@"+tag, SInt)
+			}
+			s.writes[k] = writes[k]
+			continue
+		}
 		x.havoc(s, writes[k], tag)
 	}
 	for k, v := range s.writes {
@@ -1403,6 +1483,34 @@ func (x *Exec) execSelect(s *State, in *ssa.Select, b *ssa.BasicBlock, i int) {
 		} else {
 			ps = s.clone()
 		}
+		// channels used by one goroutine only: a case is enabled by the fill level
+		if ci < n {
+			st := in.States[ci]
+			if x.isSeq(ps, x.val(ps, st.Chan)) {
+				if _, cs := x.chanStore(ps, x.val(ps, st.Chan)); cs != nil && cs.Len != nil {
+					if st.Dir == types.RecvOnly {
+						ps.assume(Gt(cs.Len, Int(0)))
+					} else {
+						ps.assume(Lt(cs.Len, cs.Cap))
+					}
+				}
+			}
+		} else {
+			for _, st := range in.States {
+				if x.isSeq(ps, x.val(ps, st.Chan)) {
+					if _, cs := x.chanStore(ps, x.val(ps, st.Chan)); cs != nil && cs.Len != nil {
+						if st.Dir == types.RecvOnly {
+							ps.assume(Le(cs.Len, Int(0)))
+						} else {
+							ps.assume(Ge(cs.Len, cs.Cap))
+						}
+					}
+				}
+			}
+		}
+		if ps.dead {
+			continue
+		}
 		tv := &TupleV{}
 		idx := ci
 		if ci == n {
@@ -1477,6 +1585,10 @@ func (x *Exec) chanRecv(s *State, cv Val, elem types.Type, name string, okv *Ter
 			s.assume(Implies(okv, x.chanPred(s, ci, v)))
 		}
 	}
+	if cc, ok := cv.(*ChanV); ok && cc.Obj != nil && strings.HasSuffix(cc.Obj.name, ".done$chan") {
+		s.ghost["cancelled"] = TTrue
+		s.writes["ghost:var:cancelled"] = writeRec{obj: x.fsMarker()}
+	}
 	c, cs := x.chanStore(s, cv)
 	if cs != nil && x.E.semaphores[c.Obj.id] {
 		// releasing a slot: only a slot this activation holds may be taken out
@@ -1491,6 +1603,9 @@ func (x *Exec) chanRecv(s *State, cv Val, elem types.Type, name string, okv *Ter
 		n := *cs
 		if x.E.semaphores[c.Obj.id] {
 			n.Held = Sub(cs.Held, Int(1))
+		}
+		if cs.Len != nil {
+			n.Len = Sub(cs.Len, Int(1))
 		}
 		n.RecvCnt = Add(cs.RecvCnt, Int(1))
 		s.heap[c.Obj.id] = &n
@@ -1524,9 +1639,10 @@ func (x *Exec) chanSend(s *State, cv Val, v Val, site ssa.Instruction) {
 				x.oblige(s, "chaninv", fmt.Sprintf("%s@%s", ci.Pred.Label, x.label(s, site)), Bool(found), site, "channel sent must carry invariant "+lbl)
 				continue
 			}
-			x.oblige(s, "chaninv", fmt.Sprintf("%s@%s", ci.Pred.Label, x.label(s, site)), x.chanPred(s, ci, v), site, "value sent must satisfy the channel invariant: "+ci.Pred.Src)
+			x.oblige(s, "chaninv", fmt.Sprintf("%s@%s", ci.Pred.Label, x.label(s, site)), x.chanPredCh(s, ci, v, cc), site, "value sent must satisfy the channel invariant: "+ci.Pred.Src)
 		}
 	}
+	x.onSendClauses(s, cv, v, site)
 	c, cs := x.chanStore(s, cv)
 	if cs == nil {
 		return
@@ -1536,6 +1652,12 @@ func (x *Exec) chanSend(s *State, cv Val, v Val, site ssa.Instruction) {
 		n.Held = Add(cs.Held, Int(1))
 	}
 	n.SentCnt = Add(cs.SentCnt, Int(1))
+	if cs.Len != nil {
+		n.Len = Add(cs.Len, Int(1))
+	}
+	if cnt, ok := x.countField(s, v); ok {
+		n.LastCount = cnt
+	}
 	if n.Sent != nil {
 		n.Sent = x.ghostSentAppend(s, n.Sent, v)
 	}
@@ -1561,6 +1683,85 @@ func (x *Exec) ghostSentAppend(s *State, hist *Term, v Val) *Term {
 		}
 	}
 	return hist
+}
+
+// onSendClauses applies the at-send assertions and on-send ghost effects
+// that the current function's contract declares for this channel.
+func (x *Exec) onSendClauses(s *State, cv Val, v Val, site ssa.Instruction) {
+	c, ok := cv.(*ChanV)
+	if !ok || c.Obj == nil || len(s.frames) == 0 {
+		return
+	}
+	ct := x.P.contractFor(s.top().fn)
+	if ct == nil || len(ct.OnSends) == 0 {
+		return
+	}
+	env := x.specEnvFrame(s)
+	env.quiet = true
+	type upd struct {
+		name string
+		v    Val
+	}
+	var ups []upd
+	for _, os := range ct.OnSends {
+		tv, ok := env.eval(os.ChanExpr).(*ChanV)
+		if !ok || tv.Obj != c.Obj {
+			continue
+		}
+		env.quiet = false
+		env.lets["elem"] = v
+		env.lets["ch"] = c
+		if os.Assert != nil {
+			t := env.evalBool(os.Assert.Expr)
+			x.oblige(s, "assert", fmt.Sprintf("%s@%s", os.Assert.Label, x.label(s, site)), t, site, os.Assert.Src)
+			s.assume(t)
+		}
+		if os.Effect != nil {
+			if be, ok := os.Effect.Expr.(*ast.BinaryExpr); ok && be.Op == token.EQL {
+				if id, ok := be.X.(*ast.Ident); ok && strings.HasPrefix(id.Name, "g_") {
+					ups = append(ups, upd{id.Name, env.eval(be.Y)})
+				}
+			}
+		}
+		env.quiet = true
+	}
+	env.syncFacts()
+	for _, u := range ups {
+		s.ghost[u.name] = u.v
+		s.writes["ghost:var:"+u.name] = writeRec{obj: x.fsMarker()}
+	}
+}
+
+// countField reads the Count field of a sent *struct payload, if it has one.
+func (x *Exec) countField(s *State, v Val) (*Term, bool) {
+	pv, ok := v.(*PtrV)
+	if !ok || pv.Obj == nil {
+		return nil, false
+	}
+	idx, _, ok := fieldIndexDeep(pv.Elem, "Count")
+	if !ok || len(idx) != 1 {
+		return nil, false
+	}
+	sv, ok := x.load(s, pv).(*StructV)
+	if !ok {
+		return nil, false
+	}
+	t, ok := sv.F[idx[0]].(*Term)
+	return t, ok
+}
+
+// isSeq: the channel carries a `seq:` invariant (single-goroutine use).
+func (x *Exec) isSeq(s *State, cv Val) bool {
+	c, ok := cv.(*ChanV)
+	if !ok || c.Obj == nil {
+		return false
+	}
+	for _, ci := range x.chanInvsOf(s, c) {
+		if ci.Seq {
+			return true
+		}
+	}
+	return false
 }
 
 func (x *Exec) ghostOnSend(s *State, c *ChanV, cs *ChanStore, site ssa.Instruction) {}
@@ -1657,8 +1858,15 @@ func (x *Exec) chanInvsOf(s *State, c *ChanV) []*ChanInvDecl {
 }
 
 func (x *Exec) chanPred(s *State, ci *ChanInvDecl, elem Val) *Term {
+	return x.chanPredCh(s, ci, elem, nil)
+}
+
+func (x *Exec) chanPredCh(s *State, ci *ChanInvDecl, elem Val, ch *ChanV) *Term {
 	env := x.specEnv(s, nil)
 	env.vars = map[string]Val{"elem": elem}
+	if ch != nil {
+		env.vars["ch"] = ch
+	}
 	env.frame = nil
 	env.pkgPath = ci.Pkg
 	return env.evalBool(ci.Pred.Expr)
@@ -1823,7 +2031,7 @@ func (x *Exec) step(s *State, instr ssa.Instruction) {
 		}
 		x.check(s, "makechan", in, goal, "make(chan, n): n negative or too large panics")
 		o := x.E.storeObject(fmt.Sprintf("%s%s.%s:chan", s.top().prefix, shortFn(in.Parent()), in.Name()), in.Type(), false, "chan")
-		s.heap[o.id] = &ChanStore{Cap: sz, Closed: TFalse, SentCnt: Int(0), RecvCnt: Int(0), Held: Int(0), Sent: Str(""), Local: true}
+		s.heap[o.id] = &ChanStore{Cap: sz, Closed: TFalse, SentCnt: Int(0), RecvCnt: Int(0), Held: Int(0), Sent: Str(""), Local: true, Len: Int(0), LastCount: Int(0)}
 		x.setReg(s, in, &ChanV{Nil: TFalse, Obj: o, Elem: under(in.Type()).(*types.Chan).Elem()})
 	case *ssa.MakeClosure:
 		var binds []Val
